@@ -362,7 +362,7 @@ func (d *GasDriver) Step(x *Exec, n *Node, i int) StepResult {
 			}
 		}
 	}
-	if fmt.Sprint(obs.Notifs) != fmt.Sprint(expN) {
+	if !SameNotifSet(obs.Notifs, expN) {
 		return viol("notifications", fmt.Sprintf("got %v want %v", obs.Notifs, expN))
 	}
 	// ---- the ledger identity on real balances ----
